@@ -41,6 +41,13 @@ def sites(repo):
             tree = ast.parse(open(path, encoding="utf-8").read())
         except SyntaxError as e:
             raise core.HarnessError("cannot parse %s: %s" % (path, e))
+        # enclosing function of every call, to resolve **name to a dict literal assigned in the same function
+        owner = {}
+        for fn in ast.walk(tree):
+            if isinstance(fn, (ast.FunctionDef, ast.AsyncFunctionDef)):
+                for sub in ast.walk(fn):
+                    if isinstance(sub, ast.Call):
+                        owner[id(sub)] = fn
         for node in ast.walk(tree):
             if not isinstance(node, ast.Call):
                 continue
@@ -62,11 +69,38 @@ def sites(repo):
                     if kw.arg == "code":
                         code_node = kw.value
             kws = [kw.arg for kw in node.keywords if kw.arg is not None]
-            star = any(kw.arg is None for kw in node.keywords)
+            star = False
+            for kw in node.keywords:
+                if kw.arg is None:
+                    keys = resolve_splat(kw.value, owner.get(id(node)))
+                    if keys is None:
+                        star = True
+                    else:
+                        kws += keys
             if isinstance(code_node, ast.Constant) and isinstance(code_node.value, str):
                 yield dict(file=rel, line=node.lineno, cls=name, code=code_node.value, kws=kws, star=star, dynamic=False)
             else:
                 yield dict(file=rel, line=node.lineno, cls=name, code=None, kws=kws, star=star, dynamic=True)
+
+
+def resolve_splat(value, fn):
+    """keys of `**value` when value is a dict literal / dict(k=...) call, or a name bound once to one in the enclosing function"""
+    def keys_of(v):
+        if isinstance(v, ast.Dict) and all(isinstance(k, ast.Constant) and isinstance(k.value, str) for k in v.keys):
+            return [k.value for k in v.keys]
+        if isinstance(v, ast.Call) and isinstance(v.func, ast.Name) and v.func.id == "dict" and not v.args and all(k.arg for k in v.keywords):
+            return [k.arg for k in v.keywords]
+        return None
+    direct = keys_of(value)
+    if direct is not None:
+        return direct
+    if isinstance(value, ast.Name) and fn is not None:
+        bound = [n.value for n in ast.walk(fn) if isinstance(n, ast.Assign) and any(isinstance(t, ast.Name) and t.id == value.id for t in n.targets)]
+        bound += [n.value for n in ast.walk(fn) if isinstance(n, ast.AnnAssign) and isinstance(n.target, ast.Name) and n.target.id == value.id and n.value is not None]
+        mutated = any(isinstance(n, ast.Subscript) and isinstance(n.value, ast.Name) and n.value.id == value.id and isinstance(n.ctx, ast.Store) for n in ast.walk(fn))
+        if len(bound) == 1 and not mutated:
+            return keys_of(bound[0])
+    return None
 
 
 def sql_errors(repo):
@@ -108,6 +142,12 @@ def run(ctx):
         st.builds(lambda s: type("Obj", (), {"__str__": lambda self: "{" + s + "}"})(), st.text("abc", max_size=3)),
     )
 
+    def set_output(name):
+        if hasattr(E, "set_dataset_output"):
+            E.set_dataset_output(name)
+        else:
+            E.dataset_output = name
+
     for s in static:
         key_site = "%s:%d:%s" % (s["file"], s["line"], s["code"])
         labels = [s["cls"]]
@@ -135,9 +175,10 @@ def run(ctx):
         @settings(max_examples=12 if ctx.quick else 100, database=None, deadline=None, derandomize=False,
                   suppress_health_check=list(HealthCheck), phases=[hypothesis.Phase.generate])
         @hypothesis.seed(ctx.seed * 7919 + hash(key_site) % 100000)
-        @given(st.fixed_dictionaries({k: val for k in kwnames}))
-        def prop(kw):
+        @given(st.fixed_dictionaries({k: val for k in kwnames}), st.sampled_from([None, None, "R", "DS{r}", "{}", "a}b", "{0}", "%s"]))
+        def prop(kw, outname):
             part.hist["partB_constructions"] += 1
+            set_output(outname)   # the output Dataset name the interpreter appends to messages while a statement is analysed
             try:
                 if s["cls"] == "InputValidationException":
                     e = cls(code=s["code"], **kw)
@@ -147,7 +188,9 @@ def run(ctx):
                     errs.append(("args[1]=%r" % (e.args[1],), kw))
                 str(e)
             except Exception as ex:  # noqa
-                errs.append(("%s: %s" % (type(ex).__name__, ex), kw))
+                errs.append(("%s: %s (output name %r)" % (type(ex).__name__, ex, outname), kw))
+            finally:
+                set_output(None)
         prop()
         if errs:
             part.fail("site:%s:%s:construct" % (s["file"], s["code"]), dict(site=s, kwargs=repr(errs[0][1])), errs[0][0])
@@ -204,6 +247,29 @@ def run(ctx):
             got = "%s: %s" % (type(ex).__name__, ex)
         if got != code:
             part.fail("probe:%s" % code, dict(script=script, structures=S), "expected SemanticError %s, got %s" % (code, got))
+    # erroneous statements whose (quoted) result names contain format metacharacters, through the public API
+    from vtlengine import run as vrun
+    import pandas as pd
+    for name in ["R", "'DS{r}'", "'DS{}'", "'a}b'", "'{0}'", "'x%s'", "'{Me_1}'"]:
+        for body in ["DS_1 + DS_9", "DS_1 [calc Me_9 := Me_7 + 1]", "DS_1 [keep Me_7]", "inner_join(DS_1 as a, DS_2 as a)", "cast(DS_1, boolean)", "DS_1 [filter Me_1 / 0 > 1]"]:
+            script = "%s <- %s;" % (name, body)
+            part.case("dynamic:" + script, "{" in name or "}" in name or "%" in name, labels=["dynamic_api"])
+            for api in ("semantic_analysis", "run"):
+                try:
+                    if api == "run":
+                        vrun(script=script, data_structures=S, datapoints={n: pd.DataFrame({"Id_1": [1, 2], "Me_1": [1.0, 2.0], "Me_2": [0.0, 1.0]}) for n in ("DS_1", "DS_2")})
+                    else:
+                        semantic_analysis(script, S)
+                except E.VTLEngineException as ex:
+                    if len(ex.args) > 1 and ex.args[1] not in CAT:
+                        part.fail("dynamic:uncatalogued:%s" % ex.args[1], dict(script=script, api=api), "error code %r not in catalogue" % (ex.args[1],))
+                except Exception as ex:  # noqa
+                    from verif import eng as _eng
+                    if not _eng.innermost_frame(ex).startswith("Exceptions/"):
+                        part.hist["dynamic_api:plain_exception_not_from_error_construction"] += 1   # not a coded VTL error: outside this property
+                        continue
+                    part.fail("dynamic:%s:%s" % (type(ex).__name__, body.split("(")[0].split()[-1] if "(" in body else body.split()[1].strip("[")), dict(script=script, api=api),
+                              "%s raised %s: %s for a statement named %s" % (api, type(ex).__name__, str(ex)[:200], name))
     ctx.extra.update(static_sites=len(static), dynamic_sites=len(dynamic), catalogue_entries=len(CAT), sql_error_strings=len(sqls),
                      dynamic_site_list=["%s:%d" % (s["file"], s["line"]) for s in dynamic][:20])
     ctx.assumptions = ["sites with computed codes or **kwargs are counted (dynamic_sites) but their placeholders are not asserted statically",
